@@ -387,6 +387,7 @@ func cmdRun(args []string) int {
 	replays := fs.String("replays", "replays", "")
 	knownPath := fs.String("known", "", "")
 	runsFlag := fs.Int("runs", 0, "override the number of runs")
+	div := fs.Int("div", 1, "divide the tier's number of runs (reduced exploration, e.g. cross matrix)")
 	maxsec := fs.Float64("maxsec", 0, "wall clock cap per worker (0: tier default)")
 	tmp := fs.String("tmp", os.TempDir(), "")
 	fs.Parse(args)
@@ -404,6 +405,9 @@ func cmdRun(args []string) int {
 	}
 	if *runsFlag > 0 {
 		runs = *runsFlag
+	}
+	if *div > 1 {
+		runs = runs / *div
 	}
 	if *maxsec > 0 {
 		cap = *maxsec
